@@ -1,7 +1,12 @@
 CONSTANTS
   FixAsyncCb = TRUE
-  FixCbOutsideLock = TRUE
+  FixCbRpc = TRUE
+  FixCbEl = TRUE
   FixKickoff = TRUE
+  FixDispatch = TRUE
+  FixPolicy = TRUE
+  FixResend = TRUE
+  FixRecover = TRUE
   Mode = "fine"
   Tier = "quick"
   Part = 0
